@@ -209,6 +209,89 @@ def validate_traces(ctx, traces, label, dev=None, unspec=None):
 
 # ---------------------------------------------------------------------------------------------
 # code -> spec: real runs
+def make_sparse_problem(rng, k):
+    """Sparse / irregular sampling: breakpoint intervals holding exactly 1, 2 or 3 points (an isolated point among
+    them) next to dense ones.  Every fit stays determined: sparse intervals are never neighbours, the end intervals
+    are dense, non-positive weights only sit in dense intervals, so every basis function keeps data (status 0)."""
+    nord = rng.choice([2, 3, 4, 4])
+    opt = rng.choice(['nbkpts', 'nbkpts', 'bkspace', 'everyn'])
+    x0 = rng.choice([0.0, -7.5, 120.0, 3600.0])
+    amp = rng.choice([1.0, 30.0])
+    sig = amp * rng.choice([0.01, 0.02, 0.05])
+    if opt == 'everyn':
+        # breakpoints at every 2nd..4th good point of an irregularly spaced set: every interval is sparse
+        ev = rng.choice([2, 3, 4])
+        n = rng.randint(24, 60)
+        gaps = np.array([rng.choice([0.05, 0.2, 1.0, 1.0, 3.0]) * rng.uniform(0.6, 1.4) for _ in range(n)])
+        xs = x0 + np.cumsum(gaps)
+        kw = {'everyn': ev}
+        sparse_ok = np.zeros(n, dtype=bool)                # where a non-positive weight may go: nowhere near the ends
+        sparse_ok[4:n - 4] = True
+        nzmax = 1
+    else:
+        nint = rng.randint(3, 8)
+        width = rng.choice([1.0, 2.0, 0.25])
+        counts = []
+        for i in range(nint):
+            if 0 < i < nint - 1 and counts[-1] > 3 and rng.random() < 0.6:
+                counts.append(rng.choice([1, 1, 1, 2, 3]))
+            else:
+                counts.append(rng.randint(6, 12))
+        xs, dense = [], []
+        for i, c in enumerate(counts):
+            a, b = i * width, (i + 1) * width
+            m = 0.04 * width                                # strictly inside the interval, clear of the breakpoints
+            if c <= 3:
+                pts = sorted(rng.uniform(a + 3 * m, b - 3 * m) for _ in range(c))
+                pts = [q + 2 * m * j for j, q in enumerate(pts)] if c > 1 else pts
+                pts = [min(q, b - m) for q in pts]
+            else:
+                pts = sorted(rng.uniform(a + m, b - m) for _ in range(c))
+            if i == 0:
+                pts[0] = a
+            if i == nint - 1:
+                pts[-1] = b
+            xs += pts
+            dense += [c > 3] * len(pts)
+        xs = x0 + np.array(xs)
+        n = xs.size
+        sparse_ok = np.array(dense)
+        sparse_ok[[0, 1, n - 2, n - 1]] = False
+        rangex = xs[-1] - xs[0]
+        kw = {'nbkpts': nint + 1} if opt == 'nbkpts' else {'bkspace': float(rangex / nint * 0.9995)}
+        nzmax = 2
+    if len(set(xs.tolist())) != n or np.any(np.diff(xs) <= 0):
+        return make_sparse_problem(rng, k)
+    u = (xs - xs[0]) / (xs[-1] - xs[0])
+    if rng.random() < 0.5:
+        cf = [rng.uniform(-3, 3) for _ in range(nord)]
+        f = amp * sum(cf[d] * u ** d for d in range(nord))
+    else:
+        f = amp * (np.sin(rng.uniform(1, 5) * u + rng.uniform(0, 6)) + rng.uniform(-1, 1) * u)
+    sigma = sig * np.array([rng.choice([0.5, 1.0, 1.0, 2.0]) for _ in range(n)])
+    y = f + np.array([rng.gauss(0, 1) for _ in range(n)]) * sigma
+    w = 1.0 / sigma ** 2
+    if rng.random() < 0.5:                                 # something for the rejection to find (dense places only)
+        for _ in range(rng.randint(1, 2)):
+            j = rng.randrange(n)
+            if sparse_ok[j]:
+                y[j] += rng.choice([-1, 1]) * rng.uniform(15, 30) * sigma[j]
+    for _ in range(rng.randint(0, nzmax)):
+        j = rng.randrange(n)
+        if sparse_ok[j] and (j == 0 or w[j - 1] > 0) and (j == n - 1 or w[j + 1] > 0):
+            w[j] = rng.choice([0.0, -1.0])
+    if opt == 'everyn':
+        ngood = int((w > 0).sum())
+        nb = max(ngood // kw['everyn'], 1)
+        if nb < 3 or ngood % (nb - 1) == 0:                # the everyn index corner belongs to C08
+            return make_sparse_problem(rng, k)
+    lower, upper = rng.choice([(5, 5), (5, 5), (3, 7), (7, 3), (4, 6)])
+    maxiter = rng.choice([0, 0, 0, 1, 2, 10])
+    order = np.lexsort((y, xs))
+    return {'X': xs[order], 'Y': y[order], 'W': w[order], 'nord': nord, 'kw': kw, 'lower': lower, 'upper': upper,
+            'maxiter': maxiter, 'outliers': [], 'id': k, 'sparse': True}
+
+
 def make_problem(rng, k, quick):
     """Seeded data set: smooth signal + noise, injected outliers, zero / negative weights; gap free."""
     nord = rng.choice([2, 3, 4, 4])
@@ -468,7 +551,7 @@ def run_traces(ctx, bsp):
     batch = []
     done = 0
     for k in range(nprob):
-        P = make_problem(rng, k, ctx.quick)
+        P = make_sparse_problem(rng, k) if k % 5 in (1, 3) else make_problem(rng, k, ctx.quick)
         ref = refperm = None
         for j, perm in enumerate(caller_orders(rng, P['X'].size)):
             res = run_real(bsp, P, perm)
